@@ -15,7 +15,7 @@ from fractions import Fraction as F
 
 import numpy as np
 
-from harness.core import coq_eval_cases, coq_list, q_lit, run_impl
+from harness.core import safe_fraction, coq_eval_cases, coq_list, q_lit, run_impl
 
 HEADER = ("From Coq Require Import QArith Qabs List Bool ZArith.\nFrom SV Require Import model.FlowPath.\n"
           "Import ListNotations.\nOpen Scope Q_scope.\n")
@@ -27,7 +27,7 @@ def hx(x):
 
 
 def fq(x):
-    return q_lit(F(float(x)))
+    return q_lit(safe_fraction(x))
 
 
 def rnd(rng, lo, hi, q=16):
@@ -56,13 +56,14 @@ def gen_case(rng, cid, solve=False):
              "f0": rnd(rng, 0.05, 1.0, 64), "f1": rnd(rng, 0, 0.5, 64), "f2": rnd(rng, 0, 0.002, 4096)}
     nvals = 1 + sum(len(p["weights"]) + 1 for p in panels)
     T = [rnd(rng, 450, 700) for _ in range(nvals)]
-    return {"id": cid, "times": times, "mass_flow": mass, "inlet": inlet, "panels": panels, "fluid": fluid, "t": t,
+    t2 = rng.choice([x for x in times if x != t] + [times[-2] + (times[-1] - times[-2]) * rng.choice([0.125, 0.625])])
+    return {"id": cid, "times": times, "mass_flow": mass, "inlet": inlet, "panels": panels, "fluid": fluid, "t": t, "t2": t2,
             "T": T, "solve": solve}
 
 
 def to_impl(c):
     return {"id": c["id"], "times": [hx(x) for x in c["times"]], "mass_flow": [hx(x) for x in c["mass_flow"]],
-            "inlet": [hx(x) for x in c["inlet"]], "t": hx(c["t"]), "T": [hx(x) for x in c["T"]], "solve": c["solve"],
+            "inlet": [hx(x) for x in c["inlet"]], "t": hx(c["t"]), "t2": hx(c["t2"]), "T": [hx(x) for x in c["T"]], "solve": c["solve"],
             "fluid": {k: hx(v) for k, v in c["fluid"].items()},
             "panels": [{"weights": [hx(w) for w in p["weights"]], "ri": hx(p["ri"]), "h": hx(p["h"]),
                         "metal": [[[[hx(v) for v in row] for row in tube] for tube in tm] for tm in p["metal"]]}
@@ -139,6 +140,10 @@ def terms_for(c, r):
     if "R" in r:
         out.append(("residual", resid_term(c["T"], r["R"], TOL)))
         out.append(("recover", rec_term(c["T"], r["rec"])))
+    if "R2" in r:
+        c2 = dict(c, t=c["t2"])
+        for label, term in terms_for(c2, {"R": r["R2"], "rec": r["rec2"]}):
+            out.append((label + "-at-a-second-time", term))
     if "Ts" in r:
         Ts = [float.fromhex(x) for x in r["Ts"]]
         out.append(("certificate", resid_term(Ts, r["Rs"], TOL)))
